@@ -41,3 +41,21 @@ func VerifEvtimeBatchMsgp(cfg config.Config, body []byte) ([]time.Time, error) {
 	}
 	return out, nil
 }
+
+// VerifEvtimeBatchJSONInterleaved parses body A, then body B (another request taking the pooled
+// parser), and only then reads A's event times, as Router.batch does lazily in its event loop.
+func VerifEvtimeBatchJSONInterleaved(cfg config.Config, bodyA, bodyB []byte) ([]time.Time, error) {
+	a := verifEvtimeBatch(cfg)
+	if err := a.UnmarshalJSON(bodyA); err != nil {
+		return nil, err
+	}
+	b := verifEvtimeBatch(cfg)
+	if err := b.UnmarshalJSON(bodyB); err != nil {
+		return nil, err
+	}
+	out := make([]time.Time, len(a.events))
+	for i := range a.events {
+		out[i] = a.events[i].getEventTime()
+	}
+	return out, nil
+}
